@@ -40,14 +40,21 @@ theorem foldl_applyCrit_core (l : List Crit) (s : St) :
   | nil => rfl
   | cons k t ih => simp only [List.foldl_cons, ih, applyCrit_core]
 
+theorem setWeights_core (s : St) : (setWeights s).core = s.core := by
+  unfold setWeights; split <;> rfl
+
+theorem setFlags_core (f : Fmt) (s : St) : (setFlags f s).core = s.core := by
+  unfold setFlags; split <;> rfl
+
+theorem setKeep_core (f : Fmt) (s : St) : (setKeep f s).core = s.core := rfl
+
 /-- the T/F/B part of `select()` is a function of the T/F/B part of the state, the reset dimensions and
     the T/F/B keywords only -/
 theorem core_step (f : Fmt) (s : St) (c : Call) :
     (step f s c).core = coreStep s.core c.resetDims c.crits := by
-  unfold step coreStep
-  simp only
-  split <;> split <;> simp only [St.core] <;>
-    exact foldl_applyCrit_core _ _
+  unfold step
+  simp only [setKeep_core, setFlags_core, setWeights_core, foldl_applyCrit_core]
+  rfl
 
 /-! ### masks -/
 
